@@ -327,6 +327,16 @@ def r_global_search(rep, prog):
                 detail = T.show(r)
         rep.check(good, rule, "%s|index" % fn, "visits (start + entries.len() +/- i/2) % entries.len()",
                   "visited index is not (start + len +/- i/2) %% entries.len(): %s" % detail, b.term(h)["span"])
+        # the offsets enumerate a permutation of the trees: +i/2 for even i, -ceil(i/2) for odd i (or a plain linear scan)
+        offs = set()
+        for it in idx_terms:
+            for alt in T.alternatives(tm, it):
+                for r in [x for x in T.walk(alt) if x[0] == "bin" and x[1] == "Rem"]:
+                    offs |= _offset_forms(r[2])
+        perm = offs in ({"+i/2", "-ceil(i/2)"}, {"+i"}, {"-i"})
+        rep.check(perm, rule, "%s|permutation" % fn, "offsets %s visit every tree once" % sorted(offs),
+                  "the visiting offsets are %s, not {+i/2 (even i), -ceil(i/2) (odd i)}: some trees are visited twice and others never, "
+                  "so a tree with free frames (or the tree a change is looking for) can be missed" % sorted(offs), b.term(h)["span"])
         # skip edges
         work = {bi for bi, t in acc_calls if _is_access(tm, t)}
         work |= {bi for bi, t in b.calls_to("llfree::util::SortedBuffer::add") if bi in blocks}
@@ -376,6 +386,50 @@ def r_global_search(rep, prog):
                     ok_edge = True
             rep.check(ok_edge, rule, "%s|early-exit" % fn, "early exit only on a non-Memory access result",
                       "the search loop can be left early at bb%d -> bb%d without an access result" % (a, d), b.term(a).get("span"))
+
+
+def _offset_forms(t):
+    """Classifies the loop-variable dependent summands of an index expression: '+i/2', '-ceil(i/2)', '+i', '-i' or the raw term."""
+    out = set()
+
+    def is_i(x):
+        x = T.strip_casts(x)
+        while x[0] == "call" and x[1] in ("usize::cast_signed", "isize::cast_unsigned"):
+            x = T.strip_casts(x[2][0])
+        return x[0] == "f" and any(y[0] == "call" and y[1].endswith("::next") for y in T.walk(x))
+
+    def strip(x):
+        while True:
+            x = T.strip_casts(x)
+            if x[0] == "call" and x[1] in ("usize::cast_signed", "isize::cast_unsigned"):
+                x = x[2][0]
+                continue
+            return x
+
+    def go(x, sign):
+        x = strip(x)
+        if x[0] == "bin" and x[1].startswith("Add"):
+            go(x[2], sign)
+            go(x[3], sign)
+        elif x[0] == "bin" and x[1].startswith("Sub"):
+            go(x[2], sign)
+            go(x[3], -sign)
+        elif x[0] == "un" and x[1] == "Neg":
+            go(x[2], -sign)
+        elif not any(y[0] == "call" and y[1].endswith("::next") for y in T.walk(x)):
+            return
+        elif is_i(x):
+            out.add("+i" if sign > 0 else "-i")
+        elif x[0] == "bin" and x[1] == "Div" and is_i(x[2]) and T.const_val(x[3]) == 2:
+            out.add("+i/2" if sign > 0 else "-i/2")
+        elif x[0] == "bin" and x[1] == "Shr" and is_i(x[2]) and T.const_val(x[3]) == 1:
+            out.add("+i/2" if sign > 0 else "-i/2")
+        elif x[0] == "call" and x[1] == "usize::div_ceil" and is_i(x[2][0]) and T.const_val(x[2][1]) == 2:
+            out.add("+ceil(i/2)" if sign > 0 else "-ceil(i/2)")
+        else:
+            out.add(("+" if sign > 0 else "-") + T.show(x)[:40])
+    go(t, 1)
+    return out
 
 
 def _mentions_next(b, tm, t, depth=0):
